@@ -333,14 +333,52 @@ func judge(c Case, o *vh.Obs) {
 			sigs = nil
 		case "add-stamp":
 			if len(sigs) > 0 { // stamps are only accepted on signed envelopes
+				var beforeStamps []head.Stamp
+				for _, x := range env.Head.Stamps {
+					if x != nil && x.Provider != cbc.Key(a.Arg) {
+						beforeStamps = append(beforeStamps, *x)
+					}
+				}
 				env.Head.AddStamp(&head.Stamp{Provider: cbc.Key(a.Arg), Value: a.Val})
+				for _, b := range beforeStamps {
+					found := false
+					for _, x := range env.Head.Stamps {
+						if x != nil && *x == b {
+							found = true
+						}
+					}
+					if !found {
+						o.Failf("header:add-stamp-disturbed-another", "adding the stamp %q changed or removed the stamp %q that was in the header (%s)", a.Arg, b.Provider, describe(c))
+						return
+					}
+				}
 			}
 		case "add-link":
 			l := &head.Link{Key: cbc.Key(a.Arg), URL: "https://example.com/" + a.Val, Title: a.Extra}
 			if a.Extra == "T2" {
 				l.MIME = "application/pdf"
 			}
+			// adding an entry leaves the others as they are: every link under
+			// another key is still there, unchanged
+			var beforeLinks []head.Link
+			for _, x := range env.Head.Links {
+				if x != nil && x.Key != l.Key {
+					beforeLinks = append(beforeLinks, *x)
+				}
+			}
 			env.Head.AddLink(l)
+			for _, b := range beforeLinks {
+				found := false
+				for _, x := range env.Head.Links {
+					if x != nil && *x == b {
+						found = true
+					}
+				}
+				if !found {
+					o.Failf("header:add-link-disturbed-another", "adding the link %q (%s) changed or removed the link %q (%s) that was in the header (%s)", l.Key, l.URL, b.Key, b.URL, describe(c))
+					return
+				}
+			}
 		case "retitle-link":
 			if len(env.Head.Links) > 0 {
 				l := env.Head.Links[len(env.Head.Links)-1]
@@ -815,7 +853,7 @@ func enumTamper(yield func(Case) bool) {
 func init() {
 	vh.OnExit(goblexec.Stop)
 	vh.Describe(
-		"Histories over every signable example invoice: 0-3 header decorations (links, tags, meta, notes), a signature by one of three keys, then 0-5 post-signing steps drawn from: add stamp / link (with or without title and MIME type) / tag (also the blank tag) / meta (also the empty value) / notes, change the title, description or MIME type of a link, remove a meta entry, extend the notes before or after their text, alter uuid / digest / the envelope's own schema identifier (which decides nothing), remove a tag / stamp / link, edit the document with and without recalculation, serialise+parse, sign again (any key), a signature by one of the keys over a payload that only names the envelope's identifier (no digest: it vouches for nothing), unsign; finally verification with the signer's key (75%) or another (a fifth of the time written as a JWK without the optional key id), through Envelope.Verify and VerifySignature with the key and without any (then the contents alone decide), cli.Verify (for two fifths of the cases the serialised envelope is rewritten with every string and member name as \\u escapes - surrogate pairs for the characters outside the basic plane put into the notes beforehand - with blanks and line breaks between all tokens, or compact with nothing escaped that need not be - the notes then also hold U+0085, U+2028 and U+2029, which YAML but not JSON reads as line breaks -, and the library also verifies what it reads from that text), the bulk verify action (in process) and - for a tenth of the cases and the enumerated tamper scenarios - the `gobl verify -k` executable, POST /verify and POST /bulk of a running `gobl serve`. Model: the header JSON recorded at each signing; expected = signed AND every signature made with the presented key AND the current header still contains each signed header (uuid, dig, stamps, links, tags, meta, notes); command-line paths additionally need the envelope to validate, and never accept a document edited without recalculation (the model tracks that itself, it does not ask Validate). Every path must return exactly the expected verdict; after an accepted verification a different key pair carrying the signer's key id must be refused by the same in-memory envelope. Non-trivial: the history ends signed.",
+		"Histories over every signable example invoice: 0-3 header decorations (links, tags, meta, notes), a signature by one of three keys, then 0-5 post-signing steps drawn from: add stamp / link (with or without title and MIME type) / tag (also the blank tag) / meta (also the empty value) / notes, change the title, description or MIME type of a link, remove a meta entry, extend the notes before or after their text, alter uuid / digest / the envelope's own schema identifier (which decides nothing), remove a tag / stamp / link, edit the document with and without recalculation, serialise+parse, sign again (any key), a signature by one of the keys over a payload that only names the envelope's identifier (no digest: it vouches for nothing), unsign; finally verification with the signer's key (75%) or another (a fifth of the time written as a JWK without the optional key id), through Envelope.Verify and VerifySignature with the key and without any (then the contents alone decide), cli.Verify (for two fifths of the cases the serialised envelope is rewritten with every string and member name as \\u escapes - surrogate pairs for the characters outside the basic plane put into the notes beforehand - with blanks and line breaks between all tokens, or compact with nothing escaped that need not be - the notes then also hold U+0085, U+2028 and U+2029, which YAML but not JSON reads as line breaks -, and the library also verifies what it reads from that text), the bulk verify action (in process) and - for a tenth of the cases and the enumerated tamper scenarios - the `gobl verify -k` executable, POST /verify and POST /bulk of a running `gobl serve`. Adding a link or stamp must leave the entries under other keys / providers as they were. Model: the header JSON recorded at each signing; expected = signed AND every signature made with the presented key AND the current header still contains each signed header (uuid, dig, stamps, links, tags, meta, notes); command-line paths additionally need the envelope to validate, and never accept a document edited without recalculation (the model tracks that itself, it does not ask Validate). Every path must return exactly the expected verdict; after an accepted verification a different key pair carrying the signer's key id must be refused by the same in-memory envelope. Non-trivial: the history ends signed.",
 		"signatures are random (ECDSA); only verdicts are compared",
 		"whether the envelope validates is taken from Envelope.Validate (its rules are property C10)",
 	)
